@@ -3,7 +3,9 @@
 From Coq Require Import ZArith NArith List Bool Arith.
 From Falcon.lib Require Import PyStr.
 From Falcon.C14 Require Import Spec.
-From Falcon.C13 Require Import Model Spec ProofsRoundtrip ProofsNoCrash ProofsOracle.
+From Falcon.C14 Require Import Model ModelAsync.
+From Falcon.C13 Require Import Model ModelReaders Spec ProofsRoundtrip ProofsNoCrash ProofsOracle
+  ProofsChunkingSync ProofsChunkingAsync ModelPart SpecPart ProofsPartHeader ProofsPart.
 Import ListNotations.
 Local Open Scope nat_scope.
 
@@ -55,6 +57,86 @@ Theorem C13_limits_buffer_exact : forall cs c b pre epi fin p script,
      = ([obs_skip p], Failed ETooLarge)).
 Proof. exact limits_buffer_exact. Qed.
 Print Assumptions C13_limits_buffer_exact.
+
+(* INDEPENDENCE OF THE TRANSPORT CHUNKING: C14's refinement theorems composed with the above.
+   [parse_form_sync] / [parse_form_async] (ModelReaders.v) are the same parser loop running on
+   the MODELLED BUFFERED READERS of C14 exactly as the real code does (the part stream is
+   stream.delimit(delimiter), the application acts on that child reader, the parent continues
+   from wherever the child's read-ahead left it).  For EVERY body (valid or not), every
+   short-read schedule of the source and every chunk size >= boundary length + 4, the result
+   is the one computed over the flat cursor ... *)
+Theorem C13_multipart_chunking_independent : forall cs c b script body sched,
+  4 <= cs -> 1 <= length b -> length b + 4 <= cs ->
+  parse_form_sync cs c b script body sched = parse_form cs c b script body.
+Proof. exact multipart_chunking_independent_sync. Qed.
+Print Assumptions C13_multipart_chunking_independent.
+
+(* ... hence for encoded forms exactly the encoded parts / limit errors, through the reader *)
+Theorem C13_multipart_roundtrip_through_sync_reader : forall cs c b pre epi fin ps script sched,
+  wf_form cs b pre ps = true ->
+  parse_form_sync cs c b script (encode_form ps b pre epi fin) sched = expected_run cs c 0 ps script.
+Proof. exact multipart_roundtrip_sync. Qed.
+Print Assumptions C13_multipart_roundtrip_through_sync_reader.
+
+(* the same through the async reader, for every way the transport chunks the body (incl. empty
+   and 1-byte chunks).  [F] is the loop fuel of the async reader model (>= #chunks + 6).
+   script_ok is needed here: read_until(invalid delimiter, 0) returns b'' in the async reader
+   (the generator that validates the delimiter is never started) but is a ValueError on the
+   cursor -- Example script_ok_needed in ProofsChunkingAsync.v. *)
+Theorem C13_multipart_chunking_independent_async : forall cs F c b script chunks,
+  4 <= cs -> 1 <= length b -> length b + 4 <= cs -> length chunks + 6 <= F ->
+  script_ok cs script = true ->
+  parse_form_async cs F c b script chunks = parse_form cs c b script (concat chunks).
+Proof. exact multipart_chunking_independent_async. Qed.
+Print Assumptions C13_multipart_chunking_independent_async.
+
+Theorem C13_multipart_roundtrip_through_async_reader : forall cs F c b pre epi fin ps script chunks,
+  wf_form cs b pre ps = true -> concat chunks = encode_form ps b pre epi fin ->
+  length chunks + 6 <= F -> script_ok cs script = true ->
+  parse_form_async cs F c b script chunks = expected_run cs c 0 ps script.
+Proof. exact multipart_roundtrip_async. Qed.
+Print Assumptions C13_multipart_roundtrip_through_async_reader.
+
+(* NAMES, FILENAMES, CONTENT TYPES.  ModelPart.v models BodyPart.content_type / .name /
+   .filename over the header dictionary (ASCII / strict UTF-8 decoding, C11's parse_header model
+   incl. its quoted-string path, the filename* regex, percent-decoding, charset decoding).
+   The reference encoder's domain (wf_field): name and plain filename = any Unicode scalar values
+   except double quote, backslash, CR, LF (so ';', '=', spaces, non-BMP are fine);
+   extended filename (filename*=UTF-8''pct) = any non-empty string of scalar values;
+   content type = ASCII without CR/LF.  For every field in that domain the part presents exactly
+   the field's content type (default text/plain), name and filename. *)
+Theorem C13_field_view_roundtrip : forall b f, wf_field b f = true ->
+  view_of (expect_headers (p_headers (field_part f)) []) = field_view f.
+Proof. exact field_view_roundtrip. Qed.
+Print Assumptions C13_field_view_roundtrip.
+
+(* the Content-Disposition value the encoder writes parses (C11 model, old-stdlib path with
+   quote counting) to exactly the name / filename / filename* parameters *)
+Theorem C13_parse_content_disposition : forall name fn,
+  quotable name = true -> wf_filename fn = true ->
+  let ps := snd (parse_header (cd_value name fn)) in
+  pget ps s_name = Some name /\
+  match fn with
+  | None => pget ps s_filename = None /\ pget ps s_filename_star = None
+  | Some (false, f) => pget ps s_filename = Some f /\ pget ps s_filename_star = None
+  | Some (true, f) => pget ps s_filename_star = Some (s_ext_value f) /\ pget ps s_filename = None
+  end.
+Proof. exact parse_cd_value. Qed.
+Print Assumptions C13_parse_content_disposition.
+
+(* the whole form, at the level of fields: parse(encode(fields)) is the expected run (any
+   script, any limits), and every yielded part presents its field's content type, name and
+   filename *)
+Theorem C13_form_roundtrip : forall cs c b pre epi fin fs script,
+  (1 <=? length b) && (length b + 4 <=? cs) && (4 <=? cs) && no_early (DASHDASH ++ b) pre = true ->
+  forallb (wf_field b) fs = true ->
+  parse_form cs c b script (encode_form (map field_part fs) b pre epi fin)
+  = expected_run cs c 0 (map field_part fs) script
+  /\ Forall2 (fun o f => view_of (po_headers o) = field_view f)
+             (fst (expected_run cs c 0 (map field_part fs) script))
+             (firstn (length (fst (expected_run cs c 0 (map field_part fs) script))) fs).
+Proof. exact form_roundtrip. Qed.
+Print Assumptions C13_form_roundtrip.
 
 (* INVALID STRUCTURE.  For EVERY byte string as body (valid, corrupted, truncated, garbage),
    every boundary, every limit setting and every consumption script with valid read_until
